@@ -94,6 +94,27 @@ def check_admission(prog, av, ak, r):
         r.ok("dynamic admission = some dynamic prefix contains the remote address")
     else:
         r.fail(prog.name(ak), "dynamic-prefix-test", "the dynamic-neighbour test is not 'a configured prefix contains the address'", av.loc())
+    # already_connected: each direction looks at its own close channel
+    for kk in prog.with_closures(ak):
+        cv = view(prog, kk)
+        cbrs = branches(cv)
+        for bi, t in cv.calls(re.compile(r".*Option::<T>::is_some$")):
+            e = Renderer(cv, depth=8).operand(t["args"][0], 8)
+            fs = set(expr_fields(e)) & {"active_close_tx", "passive_close_tx"}
+            if not fs:
+                continue
+            role = None
+            for g, ll, h in flat_guards(cv, bi, cbrs):
+                if g[0] == "discr" and g[2] and g[2].endswith("fsm::Role") and len(ll) == 1:
+                    role = next(iter(ll))
+            if role is None:
+                continue
+            want_f = {"Active": "active_close_tx", "Passive": "passive_close_tx"}[role]
+            if fs == {want_f}:
+                r.ok("already_connected: a new %s connection is compared with %s" % (role, want_f))
+            else:
+                r.fail(prog.name(ak), "already-connected-wrong-slot:" + role, "for a new %s connection the duplicate test looks at %s: a second connection in the same direction is admitted "
+                       "(and one in the other direction is refused before collision resolution can see it)" % (role, sorted(fs)), cv.loc(bi))
     # already_connected consults the close channel of the same direction
     if {"field:active_close_tx", "field:passive_close_tx"} <= toks:
         r.ok("already_connected consults the per-direction close channels")
@@ -301,6 +322,25 @@ def check_negotiate(prog, r):
             r.ok("negotiate: %s needs both sides" % what)
         else:
             r.fail(nv.name, "one-sided:" + fld, "%s is enabled without consulting both capability lists" % what, nv.loc())
+    # per-family extended next hop (RFC 8950): switched on only where both sides advertised it for the family
+    ls = [l for l, nme in nv.local_name.items() if nme == "extended_nexthop"]
+    n_true = 0
+    for l in ls:
+        for bi, si, s in nv.defs().get(l, []):
+            if bi not in nv.live or si == "t" or not (s["rv"]["r"] == "use" and (s["rv"]["o"].get("k") or {}).get("v") == 1):
+                continue
+            n_true += 1
+            need = set()
+            for g, ll, h in flat_guards(nv, bi, brs):
+                if ll == {"true"} and "extended_nexthop" in expr_fields(g):
+                    need |= {v for v in expr_vars(g) if v in ("lc", "rc")}
+            if need == {"lc", "rc"}:
+                r.ok("negotiate: extended next hop needs the local and the remote capability")
+            else:
+                r.fail(nv.name, "one-sided:extended_nexthop", "extended next hop is switched on when %s advertised it: IPv4 routes are then sent in MP_REACH_NLRI to a peer that did not negotiate RFC 8950"
+                       % ("only one side (%s)" % "/".join(sorted(need)) if need else "neither side necessarily"), nv.loc(bi))
+    if n_true == 0:
+        r.unanalysable("negotiate: no `extended_nexthop = true` assignment found", nv.loc())
     # families = intersection: insert only under lmap.remove(f) == Some while iterating parse(remote)
     ins = [b for b, t in nv.calls(re.compile(r".*HashMap::<K, V, S(, A)?>::insert")) if "FamilyState" in t["f"].get("ga", "")]
     okf = ins and all(any(g[0] == "discr" and any(c.endswith("::remove") for c in expr_calls(g)) and "lmap" in expr_vars(g) and l == {"Some"} for g, l, h in flat_guards(nv, b, brs)) for b in ins)
